@@ -4,23 +4,34 @@
 # module replace directive and generated overlays) and runs one check.
 cd "$(dirname "$0")" || exit 2
 export GOFLAGS=-mod=mod GOPROXY=off GOSUMDB=off GOTOOLCHAIN=local CGO_ENABLED=0
+: "${VERIF_ROOT:=$(pwd)}"; export VERIF_ROOT
 mkdir -p .bin
+MODFLAG=""
+if [ -n "$VERIF_REPO" ] && [ "$VERIF_REPO" != "/repo" ]; then
+	# selftest only: build against a scratch copy of the tree (mutants, candidate fixes)
+	sed "s#=> /repo#=> $VERIF_REPO#" go.mod > .bin/alt.mod
+	cp go.sum .bin/alt.sum
+	MODFLAG="-modfile=.bin/alt.mod"
+	BIN=".bin/ivgmc-alt"
+else
+	BIN=".bin/ivgmc"
+fi
 build() {
 	if [ -f inst/overlay.sh ]; then
 		sh inst/overlay.sh >/dev/null 2>.bin/overlay.log
 	fi
-	if [ -f .bin/overlay.json ] && go build -tags verif -overlay .bin/overlay.json -o .bin/ivgmc ./cmd/ivgmc 2>.bin/build.log; then
+	if [ -f .bin/overlay.json ] && go build $MODFLAG -tags verif -overlay .bin/overlay.json -o $BIN ./cmd/ivgmc 2>.bin/build.log; then
 		return 0
 	fi
 	# fall back to the public API only (a refactored tree may not accept the export overlay)
-	go build -o .bin/ivgmc ./cmd/ivgmc 2>.bin/build.log
+	go build $MODFLAG -o $BIN ./cmd/ivgmc 2>.bin/build.log
 }
 if ! build; then
 	echo "HARNESS-ERROR: build failed"; cat .bin/build.log; exit 2
 fi
 case "$1" in
 build) exit 0 ;;
-replay) exec .bin/ivgmc replay "$2" ;;
-selftest) shift; exec .bin/ivgmc selftest "$@" ;;
-*) exec .bin/ivgmc check "$1" -tier "${2:-quick}" ;;
+replay) exec $BIN replay "$2" ;;
+selftest) shift; exec $BIN selftest "$@" ;;
+*) exec $BIN check "$1" -tier "${2:-quick}" ;;
 esac
